@@ -217,6 +217,20 @@ def ctr_class(rnd, qos, big_mem=False):
     return {"cpureq": cpu, "cpulim": lim, "memlim": mem, "memreq": rnd.choice([16, 64, 128, 256])}
 
 
+SHAPES = ["nomem", "nores", "noperiod", "noperiod", "noshares", "nocpu"]
+
+
+def odd_shape(rnd, spec, p=0.3):
+    """C14: a well-formed request whose optional resource sub-messages are partly absent (no memory block, no resources
+    at all, a CFS quota without a period, no shares, no CPU block)."""
+    if rnd.random() < p:
+        spec = dict(spec)
+        spec[rnd.choice(SHAPES)] = True
+        if spec.get("noperiod") and not spec.get("cpulim"):
+            spec["cpulim"] = max(100, spec.get("cpureq") or 100)
+    return spec
+
+
 def cold_ok_world(world):
     """The topology-aware policy switches cold start off for good when any PMEM node is movable-only."""
     pmem = [n for n in (world["machine"].get("cpuless_nodes") or []) if n.get("type") == "pmem"]
@@ -277,10 +291,10 @@ def lifecycle_history(world, rnd, nops, disorder=0.0, reconf_cfgs=None, sync=Tru
                 ops.append({"op": kind, "pod": rnd.choice(["px", "p0"] + list(pods))})
             elif kind == "Create":
                 ops.append({"op": "Create", "pod": rnd.choice(["px"] + list(pods)), "c": "cx%d" % len(ops),
-                            "ctr": ctr_class(rnd, "Burstable")})
+                            "ctr": odd_shape(rnd, ctr_class(rnd, "Burstable"))})
             elif kind == "dupCreate" and ctrs:
                 c = rnd.choice(list(ctrs))
-                ops.append({"op": "Create", "pod": pod_of[c], "c": c, "ctr": ctr_class(rnd, pods[pod_of[c]]["qos"])})
+                ops.append({"op": "Create", "pod": pod_of[c], "c": c, "ctr": odd_shape(rnd, ctr_class(rnd, pods[pod_of[c]]["qos"]))})
                 ctrs[c] = "created"
             elif kind == "earlyRemovePod" and pods:
                 p = rnd.choice(list(pods))
@@ -289,7 +303,7 @@ def lifecycle_history(world, rnd, nops, disorder=0.0, reconf_cfgs=None, sync=Tru
                 c = rnd.choice(["cx"] + list(ctrs)) if ctrs else "cx"
                 o = {"op": kind, "pod": pod_of.get(c, "px"), "c": c}
                 if kind == "Update":
-                    o["ctr"] = ctr_class(rnd, "Burstable")
+                    o["ctr"] = odd_shape(rnd, ctr_class(rnd, "Burstable"))
                 ops.append(o)
                 if kind == "Stop" and c in ctrs:
                     ctrs[c] = "stopped"
@@ -306,6 +320,8 @@ def lifecycle_history(world, rnd, nops, disorder=0.0, reconf_cfgs=None, sync=Tru
             spec = ctr_class(rnd, pods[p]["qos"], big)
             if rnd.random() < 0.15:
                 spec["mems0"] = "0"
+            if disorder:
+                spec = odd_shape(rnd, spec, 0.15)
             ops.append({"op": "Create", "pod": p, "c": c, "ctr": spec})
             pods[p]["ctrs"].append(c)
             ctrs[c] = "created"          # if the plugin refuses, later events for it are harmless (unknown container)
@@ -339,7 +355,8 @@ def lifecycle_history(world, rnd, nops, disorder=0.0, reconf_cfgs=None, sync=Tru
         elif k < 0.88:
             if live():
                 c = rnd.choice(live())
-                ops.append({"op": "Update", "pod": pod_of[c], "c": c, "ctr": ctr_class(rnd, pods[pod_of[c]]["qos"], big)})
+                uspec = ctr_class(rnd, pods[pod_of[c]]["qos"], big)
+                ops.append({"op": "Update", "pod": pod_of[c], "c": c, "ctr": odd_shape(rnd, uspec, 0.15) if disorder else uspec})
         elif k < 0.93 or (reconf_bias and k < 0.97 and rnd.random() < 0.6):
             cfg = world["config"]
             if reconf_cfgs and rnd.random() < (0.9 if reconf_bias else 0.5):
